@@ -11,6 +11,8 @@ import (
 
 	skyapi "github.com/skycoin/skycoin/src/api"
 	"github.com/skycoin/skycoin/src/cipher"
+	"github.com/skycoin/skycoin/src/cipher/bip39"
+	"github.com/skycoin/skycoin/src/cipher/bip44"
 	"github.com/skycoin/skycoin/src/cipher/crypto"
 	"github.com/skycoin/skycoin/src/coin"
 	"github.com/skycoin/skycoin/src/daemon"
@@ -22,7 +24,7 @@ import (
 	"github.com/skycoin/skycoin/src/visor"
 	"github.com/skycoin/skycoin/src/visor/dbutil"
 	"github.com/skycoin/skycoin/src/wallet"
-	_ "github.com/skycoin/skycoin/src/wallet/bip44wallet"
+	"github.com/skycoin/skycoin/src/wallet/bip44wallet"
 	_ "github.com/skycoin/skycoin/src/wallet/collection"
 	_ "github.com/skycoin/skycoin/src/wallet/deterministic"
 	_ "github.com/skycoin/skycoin/src/wallet/xpubwallet"
@@ -46,6 +48,7 @@ const (
 	c28GenesisTime   = 1426562704
 	c28GenesisVolume = 100e12
 	c28Mnemonic      = "abandon abandon abandon abandon abandon abandon abandon abandon abandon abandon abandon about"
+	c28MnemonicXPub  = "legal winner thank year wave sausage worth useful legal winner thank yellow"
 	c28Password      = "pw"
 )
 
@@ -140,8 +143,39 @@ func buildTemplate() (*nodeTemplate, error) {
 	if _, err := ws.CreateWallet("col.wlt", wallet.Options{Type: wallet.WalletTypeCollection, Label: "col", CollectionPrivateKeys: []cipher.SecKey{c28Users[2].Sec}, CryptoType: xo}); err != nil {
 		return nil, err
 	}
+	// a watch-only wallet over the external chain of another bip44 seed; its addresses are funded like the others (the
+	// keys are known to the harness through the seed wallet, which is not loaded into the service)
+	xseedWlt, err := bip44wallet.NewWallet("xseed.wlt", "xseed", c28MnemonicXPub, "", wallet.OptionCryptoType(xo), wallet.OptionGenerateN(2))
+	if err != nil {
+		return nil, err
+	}
+	xpubText, err := func() (string, error) {
+		seed, err := bip39.NewSeed(c28MnemonicXPub, "")
+		if err != nil {
+			return "", err
+		}
+		cn, err := bip44.NewCoin(seed, bip44.CoinTypeSkycoin)
+		if err != nil {
+			return "", err
+		}
+		acct, err := cn.Account(0)
+		if err != nil {
+			return "", err
+		}
+		ext, err := acct.External()
+		if err != nil {
+			return "", err
+		}
+		return ext.PublicKey().String(), nil
+	}()
+	if err != nil {
+		return nil, err
+	}
+	if _, err := ws.CreateWallet("xpub.wlt", wallet.Options{Type: wallet.WalletTypeXPub, XPub: xpubText, Label: "xpub", GenerateN: 2, CryptoType: xo}); err != nil {
+		return nil, err
+	}
 	var walletAddrs []cipher.Address
-	for _, w := range []wallet.Wallet{det, bip, enc} {
+	for _, w := range []wallet.Wallet{det, bip, enc, xseedWlt} {
 		es, err := w.GetEntries()
 		if err != nil {
 			return nil, err
